@@ -363,6 +363,7 @@ func checkTree(col *sqlgen.Collector, c caseT, printed, want sqlparser.Statement
 		if sig == "" {
 			sig = "stmt:" + strings.TrimPrefix(reflect.TypeOf(want).String(), "*sqlparser.")
 		}
+		sig += reservedFuncName(sig, want)
 		col.Violation("C13/"+what+"/reparse-fails/"+sig,
 			fmt.Sprintf("[%s] re-serialised text does not parse: received %q, sent %q, error %v; smallest failing expression: %q", c.Dialect, c.SQL, s1, err, min), c)
 		return "reparse-fails"
@@ -371,7 +372,7 @@ func checkTree(col *sqlgen.Collector, c caseT, printed, want sqlparser.Statement
 		sig, min, rel := localise3(col, want)
 		key := diffSig(d)
 		if sig != "" {
-			key = sig + "/" + rel
+			key = sig + "/" + rel + reservedFuncName(sig, want)
 		}
 		col.Violation("C13/"+what+"/tree-differs/"+key,
 			fmt.Sprintf("[%s] re-serialised text parses to a different tree: received %q, sent %q, first difference (expected vs re-parsed) %s; smallest failing expression: %q", c.Dialect, c.SQL, s1, d, min), c)
@@ -393,4 +394,30 @@ func panicSig(p string) string {
 		p = p[:60]
 	}
 	return strings.ReplaceAll(p, " ", "_")
+}
+
+// reservedFuncName narrows the key of a failure located in a function call: when a function
+// of the statement is named by a reserved word (it can only be written in quotes: `select`(a))
+// the key says so. The AST of the MySQL dialects does not record that an identifier was quoted,
+// which is the recorded finding; any other failure in a function call keeps the plain key.
+func reservedFuncName(sig string, t sqlparser.Statement) string {
+	if !strings.HasPrefix(sig, "FuncExpr{}") || !sqlgen.IsMySQL() {
+		return ""
+	}
+	for _, sl := range sqlgen.Slots(t) {
+		f, ok := sl.Get().(*sqlparser.FuncExpr)
+		if !ok || f == nil {
+			continue
+		}
+		name := f.Name.String()
+		if name == "" || strings.ContainsAny(name, "` \"(") {
+			continue
+		}
+		_, bareErr, p1 := sqlgen.Parse("select " + name + "(a) from t")
+		_, quotedErr, p2 := sqlgen.Parse("select `" + name + "`(a) from t")
+		if p1 == "" && p2 == "" && bareErr != nil && quotedErr == nil {
+			return "/function-name-is-a-reserved-word"
+		}
+	}
+	return ""
 }
